@@ -1394,7 +1394,7 @@ def run(ctx):
             nfail += 1
             if nfail > 3:
                 break
-    # template + default arguments (repaired in /repo d5349c7): (d+1) x t entry points with documented names
+    # template + default arguments (repaired in /repo 22341aa): (d+1) x t entry points with documented names
     oracle_full(ctx, root_prog([mkfn("tmpl", nparams=3, ndefaults=2, tinst=TK[2])]), "full")
     ctx.note("full_generations", len(pick) + len(extra) + 1)
     if drv.available() and ok:
